@@ -314,6 +314,11 @@ func (ip *Interp) event(e Event) *Event {
 	if e.PathL == nil && ip.curSt != nil {
 		e.PathL = ip.PathGuardList(ip.curSt)
 	}
+	if e.GuardL != nil && e.PathL != nil {
+		// guards are reported over the whole call stack: a store in a helper is under the
+		// tests its callers made before calling it
+		e.GuardL = e.PathL
+	}
 	ip.Events = append(ip.Events, e)
 	return &ip.Events[len(ip.Events)-1]
 }
@@ -2174,6 +2179,27 @@ func (ip *Interp) builtin(act *activation, st *State, site ssa.CallInstruction, 
 			}
 		}
 		ev := ip.event(Event{Kind: "append", Args: evArgs, Instr: site, GuardL: ip.GuardList(st)})
+		// appending to a slice whose storage was made by this very computation (make,
+		// or an earlier such append) yields storage of its own again: whether or not it
+		// is reallocated, it aliases nothing that existed before
+		if s0, ok := args[0].(*Slice); ok && len(args) == 2 && s0.Base.Obj != nil && s0.Base.Obj.Kind == ObjFresh && s0.Len != nil {
+			var add *Int
+			switch v := args[1].(type) {
+			case *Slice:
+				add = v.Len
+			case *Str:
+				if v.Known {
+					add = NewConst(64, uint64(len(v.S)), true)
+				}
+			}
+			if add != nil && add.W == s0.Len.W {
+				ip.havocObj(st, s0.Base.Obj)
+				nl := ip.Ops.Add(s0.Len, add)
+				res := &Slice{Nil: TriF, Base: s0.Base, Off: s0.Off, Len: nl, Cap: ip.Ops.Join(s0.Cap, nl), ElemT: s0.ElemT}
+				ev.Result = res
+				return res, true
+			}
+		}
 		res := ip.topOf(c.Signature().Results().At(0).Type(), "append")
 		if s, ok := res.(*Slice); ok {
 			s.Nil = TriTop
